@@ -478,3 +478,40 @@ pub fn dispatch_basic<D: Decl, V: ShapeVisitor<D>>(shape: ShapeId, v: V) -> V::O
         _ => v.visit::<D, D::Twin>(b_bare, b_bare, s_bare, s_bare, None),
     }
 }
+
+
+/// Which container positions a declaration is exercised in. Selected at the type level
+/// (`Decl::Shapes`) so that only the chosen set is monomorphised.
+pub trait ShapeSet {
+    const LIST: &'static [ShapeId];
+    fn dispatch<D: Decl, V: ShapeVisitor<D>>(shape: ShapeId, v: V) -> V::Out;
+}
+
+/// All 16 positions ("core" declarations).
+pub struct AllShapes;
+/// bare / Vec / struct field / Option.
+pub struct BasicShapes;
+/// bare / Vec (the generated declaration matrix).
+pub struct MinShapes;
+
+impl ShapeSet for AllShapes {
+    const LIST: &'static [ShapeId] = &ShapeId::ALL;
+    fn dispatch<D: Decl, V: ShapeVisitor<D>>(shape: ShapeId, v: V) -> V::Out {
+        dispatch::<D, V>(shape, v)
+    }
+}
+impl ShapeSet for BasicShapes {
+    const LIST: &'static [ShapeId] = &ShapeId::BASIC;
+    fn dispatch<D: Decl, V: ShapeVisitor<D>>(shape: ShapeId, v: V) -> V::Out {
+        dispatch_basic::<D, V>(shape, v)
+    }
+}
+impl ShapeSet for MinShapes {
+    const LIST: &'static [ShapeId] = &[ShapeId::Bare, ShapeId::VecOf];
+    fn dispatch<D: Decl, V: ShapeVisitor<D>>(shape: ShapeId, v: V) -> V::Out {
+        match shape {
+            ShapeId::VecOf => v.visit::<Vec<D>, Vec<D::Twin>>(b_vec, b_vec, s_vec, s_vec, None),
+            _ => v.visit::<D, D::Twin>(b_bare, b_bare, s_bare, s_bare, None),
+        }
+    }
+}
